@@ -1,0 +1,18 @@
+//go:build verif
+// +build verif
+
+package net
+
+import (
+	"com.tuntun.rangers/node/src/common"
+	"com.tuntun.rangers/node/src/middleware/log"
+	"strconv"
+)
+
+// Verification hook H3f: the package logger is created by the state machine's
+// initialisation; a harness that only uses the wire decoders creates it here.
+func VerifInitLogger() {
+	if logger == nil {
+		logger = log.GetLoggerByIndex(log.StateMachineLogConfig, strconv.Itoa(common.InstanceIndex))
+	}
+}
